@@ -278,6 +278,9 @@ func describeP(n *pnode) string {
 func c16(r *lp.Run) {
 	r.SetRule("random trees (depth ≤ 3, member names from an adversarial list: empty, numeric-looking, ~, /, %, escapes, duplicates in a separate stream; arrays up to 13 items); for each tree every valid pointer to every node in plain and in #-fragment spelling (random extra percent-escapes), all single-edit mutants of the plain and fragment spellings, random strings, and URI-reference forms (file#fragment; implementation vs reference only); non-trivial = distinct (tree, pointer) with at least one reference token")
 	rng := r.Rng.Fork(16)
+	// the resolver's shortcut through the decoded components map: references to components whose names are
+	// made of the characters of "#/components/<kind>/", or extend a sibling's name
+	refVariants(r, r.Rng.Fork(1601), "C16", r.N(150, 3000), "components renamed (names made of the prefix's characters, dotted and prefixed sibling names)")
 	trees := r.N(400, 6000)
 	g := &ptrGen{rng: rng, byY: map[*yaml.Node]*pnode{}}
 	for t := 0; t < trees; t++ {
